@@ -3,26 +3,36 @@ package main
 import (
 	"fmt"
 
-	"github.com/canopy-network/canopy/fsm"
-	"verifharness/sim"
+	"github.com/canopy-network/canopy/lib"
+	"github.com/canopy-network/canopy/store"
 )
 
+// replay of the VStoreProofs counterexample on the real store: a prefix that extends a stored user key into its version suffix
 func main() {
-	g := &sim.GenesisSpec{}
-	for i := 0; i < 4; i++ {
-		g.Validators = append(g.Validators, sim.StdValidator(i, 1000))
-		g.Accounts = append(g.Accounts, &fsm.Account{Address: sim.BLSKey(i).Addr, Amount: 1 << 40})
-	}
-	n, err := sim.NewFNode(g.State(), nil)
+	c := lib.DefaultConfig()
+	c.StoreConfig.InMemory = true
+	s, err := store.NewStoreInMemory(lib.NewNullLogger(), c)
 	if err != nil {
 		panic(err)
 	}
-	k := sim.BLSKey(0)
-	h := n.FSM.Height()
-	escrowPool := uint64(1) + fsm.EscrowPoolAddend
-	out := n.Apply(&sim.BlockSpec{Txs: [][]byte{sim.TxBytes(fsm.NewSubsidyTx(k.Priv, 777, escrowPool, nil, 1, 1, 10000, h, "donate to escrow"))}})
-	fmt.Println("block err:", out.Err, "applied:", len(out.Results.Results), "failed:", len(out.Results.Failed))
-	bal, _ := n.FSM.GetPoolBalance(escrowPool)
-	ob, _ := n.FSM.GetOrderBook(1)
-	fmt.Printf("escrow pool of chain 1 (id %d) = %d, open orders = %d\n", escrowPool, bal, len(ob.Orders))
+	st := s.(*store.Store)
+	_ = st.Set([]byte{1, 1}, []byte{9})
+	if _, err = st.Commit(); err != nil {
+		panic(err)
+	}
+	for _, p := range [][]byte{{1, 1}, {1, 1, 0}, {1, 1, 0, 0}} {
+		it, e := st.Iterator(p)
+		if e != nil {
+			panic(e)
+		}
+		for ; it.Valid(); it.Next() {
+			fmt.Printf("prefix %v -> key %v value %v\n", p, it.Key(), it.Value())
+		}
+		it.Close()
+		it, _ = st.RevIterator(p)
+		for ; it.Valid(); it.Next() {
+			fmt.Printf("rev prefix %v -> key %v value %v\n", p, it.Key(), it.Value())
+		}
+		it.Close()
+	}
 }
